@@ -578,10 +578,16 @@ class PrintNodeIdentifier(PrintNode):
 
     def visit_Constant(self, node):
         value = node.value
-        if (self.key.startswith("F_") and isinstance(value, str)
+        if (isinstance(value, str)
                 and len(value) > 1 and value[0] == "0" and value.isdigit()):
-            # Fortran reads 010 as ten, C as eight.
-            return str(int(value, 8))
+            try:
+                octal = int(value, 8)
+            except ValueError:
+                raise RuntimeError(
+                    "Invalid octal literal '{}'".format(value))
+            if self.key.startswith("F_"):
+                # Fortran reads 010 as ten, C as eight.
+                return str(octal)
         return value
 
 def print_node_identifier(node, symbols, key):
